@@ -80,7 +80,7 @@ func genC04(ref core.CaseRef, r *rand.Rand) *c04Case {
 		all = append(all, "a|b", "b|c")
 	}
 	c.Shape = keyShape(all)
-	if ncols >= 1 && c.Types[0] == "string" && !hostile && r.Intn(3) == 0 && c.Window == "counting" {
+	if ncols >= 1 && c.Types[0] == "string" && !hostile && r.Intn(3) == 0 {
 		c.FnKey = true
 		doms[0] = []any{"aa", "Aa", "bb", "BB", "c"}
 	}
@@ -116,6 +116,11 @@ func genC04(ref core.CaseRef, r *rand.Rand) *c04Case {
 	if c.FnKey {
 		sel[0] = "upper(k1) AS k1"
 		gb[0] = "upper(k1)"
+		if r.Intn(3) == 0 {
+			// the function's argument is a nested path: the key text then contains a dot
+			c.KeyForm = "nested"
+			sel[0], gb[0] = "upper(d.k1) AS k1", "upper(d.k1)"
+		}
 	} else if ncols >= 1 && ref.Index%7 == 4 {
 		c.KeyForm = pick(r, []string{"nested", "backquoted"})
 		c.Out[0] = "g_k1"
